@@ -1,0 +1,6 @@
+//go:build !verif
+// +build !verif
+
+package bal_slb
+
+func verifGate(point string) {}
